@@ -1671,7 +1671,7 @@ func (g *FuncGen) runGhostAt(callee string, ord int, env *Env, results []Val) {
 	if g.contract == nil {
 		return
 	}
-	for _, ga := range g.contract.Ghosts {
+	for gi, ga := range g.contract.Ghosts {
 		if !strings.HasSuffix(callee, ga.Callee) {
 			continue
 		}
@@ -1691,6 +1691,10 @@ func (g *FuncGen) runGhostAt(callee string, ord int, env *Env, results []Val) {
 		if ga.Ordinal != 0 && ga.Ordinal != ord {
 			continue
 		}
+		if g.hookMatched == nil {
+			g.hookMatched = map[int]bool{}
+		}
+		g.hookMatched[gi] = true
 		if ga.Ordinal != 0 && g.curInstr != nil {
 			g.anchor(fmt.Sprintf("call %s#%d", ga.Callee, ord), g.curInstr.Pos()) // ... and the text at the chosen site
 		}
